@@ -528,7 +528,9 @@ func init() {
 		w, f = fpsCallArg("br.ReadString", 0, 0)
 		o.fpsEmit(mk("readLine", "", "ps_rl_delim", "", "Z", rlL), w, f)
 		// DigestPowershell
-		dgL := map[string]string{"line": "line", "first": "first", "len(saved)": "saved_len", "len(line)": "line_len"}
+		dgL := map[string]string{"line": "line", "first": "first", "len(saved)": "saved_len", "len(line)": "line_len", "isUtf16": "is16"}
+		w, f = fpsCond("if", "len(saved) < 2", 0)
+		o.fpsEmit(mk("DigestPowershell", "", "ps_dig_short", "(is16 : bool) (saved_len : Z)", "bool", dgL), w, f)
 		w, f = fpsCond("if", "first", 0)
 		o.fpsEmit(mk("DigestPowershell", "", "ps_dig_is_first", "(line first : list Z)", "bool", dgL, "line", "first"), w, f)
 		w, f = fpsSliceBound("saved", 0, "high")
